@@ -87,7 +87,7 @@ CLAIMS = {
         "(variable declaration, pulses, delays, phase shifts, align, channel declaration, measure) and the original must keep its "
         "full snapshot; finally the caller edits every list object it passed as an argument (targets, SLM qubits) and the record "
         "of calls and its replay must not follow. Attributes of the sequence that the snapshot does not know by name are carried "
-        "generically, so a cache written by a read-only call is a state change. A copy that raises is named after the first prefix of the history after which it raises. Worlds: a channel-less sequence on non-reusable channels (DMM id taken by a pending SLM mask), an SLM mask on a DMM with stricter duration limits than the Global channel.",
+        "generically, so a cache written by a read-only call is a state change. A copy that raises is named after the first prefix of the history after which it raises. Worlds: a channel-less sequence on non-reusable channels (DMM id taken by a pending SLM mask), an SLM mask on a DMM with stricter duration limits than the Global channel. Containers passed positionally and by keyword (target(qubits=[...]), config_slm_mask(qubits=[...])) and edited by the caller afterwards.",
         "Known findings (non-atomic multi-step operations under max_sequence_duration, declare_channel with a bad initial "
         "target) are listed in known_findings.json. Bounded depth; fault menu as listed in mc/props/c09.py.",
         "DESIGN.md §3 C09",
@@ -136,7 +136,7 @@ CLAIMS = {
         "Ising SLM mask, two detuning maps on one DMM id, a detuning map built from its own coordinate array): per channel array lengths, amplitude, "
         "detuning and phase over each pulse; per atom and basis the complex drive and weighted detuning from both "
         "to_nested_dict layouts; extension by 1 and 37 ns pads with zeros / last phase / off-detuning. Idle time inside an EOM block is "
-        "rendered from the block (mode), not from the kind of slot the implementation recorded. SequenceSamples.extend_duration to the longest channel, +1 and +37 ns next to the per-channel extension. States in which a declared channel has no slot at all (Local channel never targeted) are rendered too; the sampled channel names must be the declared ones.",
+        "rendered from the block (mode), not from the kind of slot the implementation recorded. SequenceSamples.extend_duration to the longest channel, +1 and +37 ns next to the per-channel extension. States in which a declared channel has no slot at all (Local channel never targeted) are rendered too; the sampled channel names must be the declared ones. After an accepted target(Q, ch) the channel addresses exactly Q as written (also a subset of the previous targets).",
         "Known findings: channels merged into one nested-dict entry are combined by adding amplitudes and phases (two globals "
         "on a basis; global+local with all_local=True); a merge model (sum of amplitudes and carried phases per entry) scopes these "
         "findings: a deviation that is not that sum has its own fingerprint. Phase between pulses is not compared.",
@@ -169,7 +169,7 @@ CLAIMS = {
         "every limit => accepted and scheduled unchanged (or only lengthened to the next clock multiple with the same defining "
         "parameters). Monitor: every pulse slot of every state of a depth 2-4 BFS on four worlds with / without limits; for every accepted "
         "transition ending at E the same call is re-issued with max_sequence_duration = E (must be accepted) and E-1 (must be "
-        "refused). Two detuning maps of different largest weight configured on one DMM id, with detunings between the two per-atom limits. An SLM mask on a DMM whose clock / minimum / maximum duration differ from the Global channel's (the mask's automatic pulse must respect the DMM's own limits). Minimum-average x lengthened-duration grid (the pulse that is scheduled is judged), and histories in which a pulse at a limit is followed by its near twin (within Pulse.__eq__'s tolerance) outside the limit.",
+        "refused). Two detuning maps of different largest weight configured on one DMM id, with detunings between the two per-atom limits. An SLM mask on a DMM whose clock / minimum / maximum duration differ from the Global channel's (the mask's automatic pulse must respect the DMM's own limits). Minimum-average x lengthened-duration grid (the pulse that is scheduled is judged), and histories in which a pulse at a limit is followed by its near twin (within Pulse.__eq__'s tolerance) outside the limit. After a pulse was accepted the caller edits in place every array it can read from it: the scheduled pulse stays the validated one.",
         "Detuning values within 1e-6 of a limit are a don't-care band; custom / composite waveforms may be refused for "
         "non-clock-multiple durations; waveform samples trusted (C16).",
         "DESIGN.md §3 C01",
@@ -209,7 +209,7 @@ CLAIMS = {
         "reaches -0.0) and +-3e-6 (off the trap). Object histories: every "
         "sequence of <= 3 (thorough 4) steps over 12 uses / caller-side edits (constructor argument; containers and arrays "
         "returned by traps_dict, coords, sorted_coords, register.qubits, weights) on one 2D / 3D layout built from an array or a "
-        "list, compared after every step with a pristine layout of the same coordinates (7.5k histories). Every out-of-range trap id (-1, -n, n, n+1) must be refused by define_register and MappableRegister.build_register. The register constructor with layout= and every ordering of the right trap ids: only the qubits' own pairing is accepted. Coordinates exactly half way between two 1e-6 grid points (rounding ties) with direction-free consistency oracles; the lattice layouts (rectangular / square / triangular) and every register they define.",
+        "list, compared after every step with a pristine layout of the same coordinates (7.5k histories). Every out-of-range trap id (-1, -n, n, n+1) must be refused by define_register and MappableRegister.build_register. The register constructor with layout= and every ordering of the right trap ids: only the qubits' own pairing is accepted. Coordinates exactly half way between two 1e-6 grid points (rounding ties) with direction-free consistency oracles; the lattice layouts (rectangular / square / triangular) and every register they define. Coordinates given as float32 / float16 / integer / Fortran-ordered arrays: same ids, equality, hashes, look-ups and weights as from a list.",
         "Grid values only; sets whose coordinates coincide after rounding must be refused or numbered consistently.",
         "DESIGN.md §3 C19",
     ),
@@ -242,7 +242,7 @@ CLAIMS = {
         "ending in a short zero / low hold and sign-changing ramps) and EOM bandwidths 20/40: the true output beyond duration + "
         "Pulse.fall_time stays below max(0.01, 0.6 % of peak). Sequences: modulated sampling succeeds whenever plain sampling "
         "does and every array ends at the channel duration including fall time, on every state of a depth 2-3 BFS (empty "
-        "channels, channels without bandwidth, open EOM blocks, DMM, EOM slower than / as fast as its channel). Channel bandwidths 240 / 300 / 479 MHz (just below the library ceiling); an exception raised while sampling an accepted sequence is a violation. Fall-time grid with BOTH waveforms of a pulse shaped (6 x 6 shapes x sign) and EOM-mode pulses of weak / zero amplitude and large detuning on 5 / 20 / 40 MHz EOMs. Sequence-level modulated VALUES: equal to the channel's own filter applied to what was scheduled (everywhere without EOM blocks, away from every block otherwise).",
+        "channels, channels without bandwidth, open EOM blocks, DMM, EOM slower than / as fast as its channel). Channel bandwidths 240 / 300 / 479 MHz (just below the library ceiling); an exception raised while sampling an accepted sequence is a violation. Fall-time grid with BOTH waveforms of a pulse shaped (6 x 6 shapes x sign) and EOM-mode pulses of weak / zero amplitude and large detuning on 5 / 20 / 40 MHz EOMs. Sequence-level modulated VALUES: equal to the channel's own filter applied to what was scheduled (everywhere without EOM blocks, away from every block otherwise). The modulated amplitude of a channel carries the area of what was scheduled (EOM at least as fast as the channel); channels with a second EOM block after a closed one and blocks split by a new setpoint.",
         "Reference filter = Gaussian impulse response of the documented transfer function on a zero-padded input; bandwidths "
         "where int() truncation of the rise time loses > 3 % (37, 44, 49 ... 100 MHz) exceed the 0.6 % clause by design margin "
         "and are not in the grid (DESIGN.md Appendix B #13).",
@@ -263,7 +263,7 @@ CLAIMS = {
         "waveform classes over the SAME variable and constant as two arguments of one template. "
         "Mappable registers: 3 unsorted declared-id orders x every injective mapping of 1-3 ids onto 4 traps x every mapping "
         "insertion order x every index: declared order, trap positions, index-based targeting and equality with direct "
-        "construction on the concrete register. Whole-array variables read through a caller-owned index list which the caller reverses after writing the template. Rounding at exact ties (round half to even) and array literals as operands (scalar x array, array x array, array + array). All operators and functions of parametrized objects (exp, log, log2, cos, tan, tanh, floor-division and modulo both ways, powers, rounding to a decimal), from_max_val constructors, literal boundary values in the calls that follow the first variable (delay 0, zero phase shift, retarget to the current target).",
+        "construction on the concrete register. Whole-array variables read through a caller-owned index list which the caller reverses after writing the template. Rounding at exact ties (round half to even) and array literals as operands (scalar x array, array x array, array + array). All operators and functions of parametrized objects (exp, log, log2, cos, tan, tanh, floor-division and modulo both ways, powers, rounding to a decimal), from_max_val constructors, literal boundary values in the calls that follow the first variable (delay 0, zero phase shift, retarget to the current target). Target-less phase shifts on templates whose build places fewer qubits than declared.",
         "Assignments restricted to those the direct construction accepts; phase-reference entries of unmapped qubits are "
         "ignored (unobservable).",
         "DESIGN.md §3 C08",
@@ -279,7 +279,7 @@ CLAIMS = {
         "out of register order: decoded == the program written with str(id)}, plus the shared-operand expression pairs of C08. For each: document valid under the published "
         "schema (own validator) , decoding succeeds, device and register equal, decoded snapshot equal (or, when parametrized / "
         "mappable, builds for two assignments equal), encode-decode-encode is a fixpoint, measurement and variables equal, and "
-        "encoding leaves the original's full snapshot (incl. call log) unchanged; abstract and legacy codecs. Custom devices that keep a built-in device's name with other specifications (physical and virtual) must come back with their own specifications. C08's skeleton templates (every expression kind at every position, incl. whole-array arguments combined with array literals) go through both codecs and must build to the same sequences. Every case runs in a freshly forked process; decoding histories (two documents with the same variable names but different sizes / types decoded one after the other) are single cases; parametrized programs x every single and pair of call-style deviations incl. keyword-only constructors; export with default values / default traps; detuning maps on every register kind.",
+        "encoding leaves the original's full snapshot (incl. call log) unchanged; abstract and legacy codecs. Custom devices that keep a built-in device's name with other specifications (physical and virtual) must come back with their own specifications. C08's skeleton templates (every expression kind at every position, incl. whole-array arguments combined with array literals) go through both codecs and must build to the same sequences. Every case runs in a freshly forked process; decoding histories (two documents with the same variable names but different sizes / types decoded one after the other) are single cases; parametrized programs x every single and pair of call-style deviations incl. keyword-only constructors; export with default values / default traps; detuning maps on every register kind. Declared channels of the still parametrized decoded sequence (derived from stored calls) equal the template's; built sequences are exported and decoded as well; SLM mask on the device's second DMM.",
         "Channels compared as a name-keyed map. Known finding: numpy.round expressions are not exportable.",
         "DESIGN.md §3 C04",
     ),
@@ -316,7 +316,7 @@ CLAIMS = {
         "ids, channels / DMMs listed in reverse order) + 6 physical variants; registers "
         "2D/3D x 6 atom orders x 3 id sets x with/without layout, layouts, detuning maps with traps in all 24 orders through a "
         "sequence; 135 emulation configs (observable sets x evaluation times x initial states x noise models) incl. operators "
-        "with complex coefficients; aliasing for StateRepr / NoiseModel / VirtualDevice / Register in all 6 orders. Registers, layouts and device layouts with negative-zero / tiny negative coordinates. Physical devices whose calibrated layouts share a slug, have no slug, or list one layout twice. Effective-noise rates of exactly 0; every noise type inside emulation configurations.",
+        "with complex coefficients; aliasing for StateRepr / NoiseModel / VirtualDevice / Register in all 6 orders. Registers, layouts and device layouts with negative-zero / tiny negative coordinates. Physical devices whose calibrated layouts share a slug, have no slug, or list one layout twice. Effective-noise rates of exactly 0; every noise type inside emulation configurations. Boolean options of a configuration given as numpy booleans / 0 / 1.",
         "Fields excluded from == by the dataclass (short_description) are not compared; layout subclasses compared by traps+slug.",
         "DESIGN.md §3 C17",
     ),
@@ -335,7 +335,7 @@ CLAIMS = {
         "stateful object: every history of <= 3 (thorough 4) configuration calls (set_initial_state x 3, set_config x 3, "
         "add_config x 3, reset_config, set_evaluation_times x 3, run, observers) on one emulator vs a fresh emulator configured with the net "
         "settings of a reference model (3.8k histories); reduced states get_state(reduce_to_basis=...) of three-level runs vs the "
-        "projection of the full state. Resonant drives made of several unequal constant segments and idle periods: final population == sin^2(area/2) on the three emulator entry points. The measured (pseudo-density) state of the legacy results follows the same convention: <reads-as-1 projector> per atom for every basis incl. the leakage bases x every basis state x detection-error rates. Legacy sampled results (NoisyResults): deterministic corners (eta in {0, 1}, vanishing amplitude spread, detection rates in {0, 1}) and scripted state-preparation patterns; evaluation-time sets with times closer than one sample to the start / end / one another on both APIs; the older QutipBackend and device default noise models as further entry points.",
+        "projection of the full state. Resonant drives made of several unequal constant segments and idle periods: final population == sin^2(area/2) on the three emulator entry points. The measured (pseudo-density) state of the legacy results follows the same convention: <reads-as-1 projector> per atom for every basis incl. the leakage bases x every basis state x detection-error rates. Legacy sampled results (NoisyResults): deterministic corners (eta in {0, 1}, vanishing amplitude spread, detection rates in {0, 1}) and scripted state-preparation patterns; evaluation-time sets with times closer than one sample to the start / end / one another on both APIs; the older QutipBackend and device default noise models as further entry points. With every sample stored, the state returned for a stored time is the state of that time (known finding: first match within one sample).",
         "Solver tolerances as listed in the evidence; Rabi value required within the range spanned by effective durations "
         "[T-1, T]; large-shot statistics are not decided.",
         "DESIGN.md §3 C11",
